@@ -55,6 +55,16 @@ def body_jacobian():
     return _r(L["ag"].jacobian(lambda x: L["np"].sin(x) * x[0])(L["onp"].array([0.3, 0.9])))
 
 
+def body_jacobian2():     # same output shape and dtype as body_jacobian, different function and point
+    L = lib()
+    return _r(L["ag"].jacobian(lambda y: y ** 2 + 3.0 * y)(L["onp"].array([1.5, -0.5])))
+
+
+def body_hessian():
+    L = lib()
+    return _r(L["ag"].hessian(lambda x: L["np"].sum(x ** 3) * x[0])(L["onp"].array([0.3, 0.9])))
+
+
 def body_depth3():
     ag = lib()["ag"]
     g, d = ag.grad, ag.deriv
@@ -103,7 +113,7 @@ def body_sharedvg_b():
     return _r(shared()["vg"](7.0, 3.0))
 
 
-BODIES = dict(shared_a=body_shared_a, shared_b=body_shared_b, sharedj_a=body_sharedj_a, sharedj_b=body_sharedj_b,
+BODIES = dict(jacobian2=body_jacobian2, hessian=body_hessian, shared_a=body_shared_a, shared_b=body_shared_b, sharedj_a=body_sharedj_a, sharedj_b=body_sharedj_b,
               sharedvg_a=body_sharedvg_a, sharedvg_b=body_sharedvg_b, simple=body_simple, nested=body_nested, closure=body_closure, fwdrev=body_fwdrev,
               jacobian=body_jacobian, depth3=body_depth3, fwd=body_fwd)
 ORDER = ["simple", "nested", "closure", "fwdrev", "fwd", "jacobian", "depth3"]
@@ -116,8 +126,10 @@ def combos(quick):
         out.append((a, b))
     out += [("closure", "jacobian"), ("nested", "depth3"), ("closure", "depth3")]
     out += [("shared_a", "shared_b"), ("sharedj_a", "sharedj_b"), ("sharedvg_a", "sharedvg_b"), ("shared_a", "sharedj_b")]
+    out += [("jacobian", "jacobian2"), ("hessian", "jacobian2"), ("fwd", "fwdrev")]
     if not quick:
         out += [("jacobian", "jacobian"), ("depth3", "depth3"), ("fwdrev", "depth3")]
+    out = list(dict.fromkeys(out))
     triples = [("simple", "nested", "closure")] if quick else list(itertools.combinations(ORDER[:4], 3))
     return out, triples
 
